@@ -325,7 +325,7 @@ func routesValid(rs []*route) bool {
 					return false
 				}
 			case 'y':
-				if h.arg > 2 && (h.arg < 200 || h.arg > 599) {
+				if h.arg > 2 && (h.arg < 200 || h.arg > 599) && h.arg != 103 {
 					return false
 				}
 			case 's':
